@@ -425,6 +425,9 @@ X_Quat(e) == Ok(e) /\ e.r.normdev <= 1000000 /\ e.r.dirdev <= 1000000
 
 \* ---- C18 ------------------------------------------------------------------
 AllLeq(s, b) == \A i \in 1..Len(s) : s[i] <= b
+\* (e.a.pre / preinv / invfirst: an unjudged call with another CRS came first, in either direction, and / or the
+\*  reverse conversion was called before the forward one, on the closed-form coordinates: the clauses are the same -
+\*  the answer for a CRS does not depend on what was converted before)
 X_Project(e) ==
   IF ~e.a.known THEN (e.a.n > 0 => Err(e))                 \* unknown EPSG code: conversion error
   ELSE /\ Ok(e)
@@ -472,6 +475,9 @@ X_Conc(e) == Ok(e) /\ e.r[1] = e.r[2]
 \*   ShiftComposeLarge (C07), AltitudeKeySubVoxelEnds, KeyToZSubKeyEnds, AltitudeKeyTranslate,
 \*   KeyToZTranslate, TileIsKeyRange (C13) (C12: translation invariance ties indices / offsets beyond 2^28 to the small
 \*   ones whose band X_ZToKey / X_KeyToZ evaluate exactly)
+\* list laws: "<Op>ListIsUnionOfMembers" - a list function applied to a list whose members differ in zoom pair, or
+\* lie a power-of-two stride apart, or coincide under a packed (zoom, index) key, returns the union of what it
+\* returns for each member alone (C03, C08, C13, C17: "for every list", "each tile / voxel its own range")
 X_Law(e) == Ok(e) /\ e.r[1] = e.r[2] /\ e.r[1] # <<>>
 
 \* ---- dispatch -------------------------------------------------------------
